@@ -81,6 +81,12 @@ def run(ctx, replay=None):
     ctx.cov["evaluations"] += len(rowsb)
     for x in rb.printed("MISMATCH"):
         e = rowsb[int(x.split(",")[0]) - 1]
+        if e["part"] == "defaults":
+            bad = [p for p in e["pairs"] if p["got"] != p["want"]]
+            ctx.report("default serializers, %s: %s" % (e["ctor"], "a call failed" if e["err"] else "a request body is not the serializer's output for its own call" if bad else "a response was not decoded into its target"),
+                       "default serializers (%s, %d calls): err=%s decoded=%s; %d of %d request bodies differ from the serializer's output for the body given to that call, e.g. %s" % (
+                           e["ctor"], e["calls"], e["err"], e["decoded"], len(bad), len(e["pairs"]), json.dumps(bad[:2])[:600]), {"component": "c17-defaults", "run": dict(e, pairs=bad[:5])})
+            continue
         ctx.report("%s body kind=%s calls=%d" % (e["ctor"], e["kind"], e["calls"]), "%s with a %s body: the serializer was called %d time(s) with %s and the request body was %r (expected the serializer's output for the given body)" % (
             e["ctor"], e["kind"], e["calls"], e["seen"], e["body"]), {"component": "c17-body", "run": e})
     ctx.cov["cases_generated_by_tlc"] = ncases
